@@ -6,6 +6,7 @@
 // runtime fatal error ("concurrent map iteration and map write") kills the process - both are
 // parsed by the parent. This program prints one line per event to stdout:
 //   TORN <reader> key=<k> value=<v> updatedBy=<s>     versioned-read check failed
+//   READ <reader> key=<k> value=<v> updatedBy=<s>     a sample of the consistent reads
 //   NILREPLY <request>                                the gateway swallowed a panic (nil, nil)
 //   ERR <request> <error>                             unexpected gRPC error
 //   DONE reads=<n> writes=<n>
@@ -76,7 +77,7 @@ func main() {
 		s := strconv.FormatInt(i, 10)
 		now := timestamppb.Now()
 		r, err := gw.Set(ctx, &hydrapb.SetRequest{Swamps: []*hydrapb.SwampRequest{{IslandID: 1, SwampName: swampName,
-			CreateIfNotExist: true, Overwrite: true, KeyValues: []*hydrapb.KeyValuePair{{Key: key, Int64Val: &i, UpdatedBy: &s,
+			CreateIfNotExist: true, Overwrite: true, KeyValues: []*hydrapb.KeyValuePair{{Key: key, Int64Val: &i, UpdatedBy: &s, CreatedBy: &s,
 				UpdatedAt: now, CreatedAt: now, ExpiredAt: timestamppb.New(time.Now().Add(time.Hour))}}}}})
 		if err != nil {
 			say("ERR Set %v", err)
@@ -92,7 +93,7 @@ func main() {
 	gw.PatchTreasures(ctx, &hydrapb.PatchTreasuresRequest{IslandID: 1, SwampName: swampName, CreateIfNotExist: true,
 		Patches: []*hydrapb.TreasurePatch{{Key: "mp", Ops: []*hydrapb.PatchOp{{Op: hydrapb.PatchOp_INC, Path: "n", Value: mpInt64(1)}}}}})
 
-	var reads, writes int64
+	var reads, writes, sampled int64
 	stop := make(chan struct{})
 	var wg sync.WaitGroup
 	spawn := func(name string, salt int, f func(rng *common.Rng)) {
@@ -121,6 +122,8 @@ func main() {
 		}
 		if ub != strconv.FormatInt(*t.Int64Val, 10) {
 			say("TORN %s key=%s value=%d updatedBy=%q", who, t.Key, *t.Int64Val, ub)
+		} else if atomic.AddInt64(&sampled, 1) <= 150 {
+			say("READ %s key=%s value=%d updatedBy=%q", who, t.Key, *t.Int64Val, ub)
 		}
 	}
 
